@@ -1045,6 +1045,10 @@ class Interp:
                 items = [v for v in mine if not self.contains(b, v)]
             else:
                 return MISSING
+            # collections.abc.Set builds results through the classmethod hook _from_iterable (default: cls(iterable))
+            hook, _ = a.cls.lookup("_from_iterable")
+            if hook is not MISSING and isinstance(hook, Func):
+                return self.call(Bound(hook, a.cls) if hook.kind == "classmethod" else hook, [items] if hook.kind != "plain" else [a, items], {})
             return self.construct(a.cls, [items], {})
         if self.is_absset(b) and not isinstance(a, AObj) and isinstance(a, (set, frozenset)):
             return self.set_mixin(fwd, b, a) if fwd in ("__and__", "__or__") else MISSING
